@@ -123,15 +123,15 @@ func (b *bodyRec) succeeded() bool {
 }
 
 type upstream struct {
-	r       *mon.Run
-	mu      sync.Mutex
-	bodies  map[string]*bodyRec
-	order   []*bodyRec
-	rng     *rand.Rand
-	choose  func(b *bodyRec, rng *rand.Rand) []string
-	bad     []string // protocol-level problems noticed while serving
+	r        *mon.Run
+	mu       sync.Mutex
+	bodies   map[string]*bodyRec
+	order    []*bodyRec
+	rng      *rand.Rand
+	choose   func(b *bodyRec, rng *rand.Rand) []string
+	bad      []string // protocol-level problems noticed while serving
 	inflight atomic.Int64
-	hdr     string // canonical form of the dynamic header name
+	hdr      string // canonical form of the dynamic header name
 }
 
 func resp(status int, req *http.Request) *http.Response {
@@ -297,7 +297,7 @@ type config struct {
 	MaxRequests int    `json:"max_requests"`
 	Merge       int    `json:"concurrent_merge"`
 	Dyn         bool   `json:"dynamic_headers"`
-	Faults      string `json:"faults"` // none | random
+	Faults      string `json:"faults"`    // none | random
 	WindowMS    int    `json:"window_ms"` // -1 = retries disabled
 	BadUTF8     bool   `json:"bad_utf8_client"`
 	Compress    bool   `json:"compress"`
@@ -419,17 +419,17 @@ func buildMap(lx *statsd.VerifLexer, rng *rand.Rand, cfg config, client int, idc
 }
 
 type world struct {
-	r     *mon.Run
-	cfg   config
-	up    *upstream
-	spy   *spyStatser
-	hfh   *statsd.HttpForwarderHandlerV2
-	fc    statsd.VerifFlushCoordinator
-	mock  *clock.Mock
-	ctx   context.Context
-	cancel context.CancelFunc
-	runDone chan struct{}
-	notifs atomic.Int64
+	r          *mon.Run
+	cfg        config
+	up         *upstream
+	spy        *spyStatser
+	hfh        *statsd.HttpForwarderHandlerV2
+	fc         statsd.VerifFlushCoordinator
+	mock       *clock.Mock
+	ctx        context.Context
+	cancel     context.CancelFunc
+	runDone    chan struct{}
+	notifs     atomic.Int64
 	stopWaiter chan struct{}
 }
 
@@ -1218,7 +1218,7 @@ func TestCheck(t *testing.T) {
 		exec++
 		cases = append(cases, scriptedCase{Config: config{Mode: "scripted", Exec: exec, Slots: 2, MaxRequests: 16, Merge: 1, Dyn: dyn, WindowMS: window, Faults: "scripted", HoldSlot: hold}, Scripts: scs})
 	}
-	add(true, 3600000, scripts, true)   // every script at once, one tenant each
+	add(true, 3600000, scripts, true) // every script at once, one tenant each
 	add(true, -1, [][]string{{"ok"}, {"500"}, {"400"}, {"conn"}, {"slow"}}, false)
 	add(true, 300, [][]string{{"500"}, {"conn"}, {"400"}, {"500", "ok"}, {"ok"}}, false)
 	for i := 0; i < len(scripts); i += 3 {
